@@ -302,9 +302,10 @@ PROPS = {
                 "minimize / fit_spline / fit_bspline); the first case of every process performs the first use of all function-local statics inside the "
                 "racing threads; 5 (quick) / 20 (thorough) independent TSan processes + a plain build; results compared with a sequential run made "
                 "afterwards; distinct = distinct observed interleavings (hash of the thread ids in the merged order of iteration start times) of runs with real overlap",
-        "floors": {"min_evaluations": {"quick": 40, "thorough": 400},
+        "floors": {"min_evaluations": {"quick": 20, "thorough": 400},
                    "cells": [r"tsan\.results_equal_sequential\|threads=16", r"tsan\.results_equal_sequential\|threads=2,", r"plain\.results_equal_sequential"],
-                   "counters": ["C18.overlapping_operation_pairs", "C18.ops.submanifold_anymanifold", "C18.ops.sparse_derivatives", "C18.ops.diff_minimize_fit", "C18.tsan_processes"]},
+                   "counters": ["C18.overlapping_operation_pairs", "C18.ops.submanifold_anymanifold", "C18.ops.sparse_derivatives", "C18.ops.diff_minimize_fit", "C18.tsan_processes"],
+                   "ratios": [["C18.cases_with_overlap", "C18.cases_run", 0.8]]},
         "assumptions": ["only the schedules the OS produced are observed (plus ThreadSanitizer's happens-before generalisation over them)",
                         "ThreadSanitizer intercepts std::thread creation/join and the C++ static-initialisation guards; no other synchronisation exists in the monitor"],
     },
